@@ -994,9 +994,9 @@ class Media(productmd.common.MetadataBase):
         self._assert_type("totaldiscs", list(six.integer_types) + [type(None)])
 
     def serialize(self, parser):
+        self.validate()
         if not self.discnum and not self.totaldiscs:
             return
-        self.validate()
         parser.add_section(self._section)
         parser.set(self._section, "discnum", str(int(self.discnum)))
         parser.set(self._section, "totaldiscs", str(int(self.totaldiscs)))
